@@ -155,3 +155,21 @@ func (c *ClientConn) VerifSIDs() ([64]byte, [64]byte) { return c.receiveSID, c.s
 
 // VerifSIDs returns the receive and send stream ids of the connection.
 func (c *ServerConn) VerifSIDs() ([64]byte, [64]byte) { return c.receiveSID, c.sendSID }
+
+// VerifGbnID returns the identity under which the connection's Go-Back-N
+// connection reports to gbn's verification sink (nil before it exists).
+func (c *ClientConn) VerifGbnID() any {
+	if c.gbnConn == nil {
+		return nil
+	}
+	return c.gbnConn.VerifID()
+}
+
+// VerifGbnID returns the identity under which the connection's Go-Back-N
+// connection reports to gbn's verification sink (nil before it exists).
+func (c *ServerConn) VerifGbnID() any {
+	if c.gbnConn == nil {
+		return nil
+	}
+	return c.gbnConn.VerifID()
+}
